@@ -441,7 +441,7 @@ The what argument tells us what sort of state is expected (allowed values are de
             raise RuntimeError("Programming error: attempt to use stack \"%s\"" % what)
 
         if what == "env":
-            current = os.environ.copy()
+            current = (os.environ.copy(), self.aliases.copy(), self.oldAliases.copy())
         elif what == "vro":
             current = self.getPreferredTags()
             if value:
@@ -467,7 +467,7 @@ The what argument tells us what sort of state is expected (allowed values are de
             raise RuntimeError("Programming error: stack \"%s\" doesn't have an element to pop" % what)
 
         if what == "env":
-            os.environ = value
+            os.environ, self.aliases, self.oldAliases = value
         elif what == "vro":
             self.setPreferredTags(value)
         elif what == "verbose":
